@@ -13,7 +13,7 @@ const c02Rule = "C01's generated schedules and configurations plus fault injecti
 // TestC02Provenance: Failover results always have provenance; nothing is fabricated or mixed up.
 func TestC02Provenance(t *testing.T) {
 	runCheck(t, "C02", "C02Provenance", c02Rule, func(c *Case) {
-		propFailoverSched(c, scenOpts{maxKeys: 3, minGets: 2, maxGets: 6, skipRead: true, clock: 3, external: 2, prefail: true, postActions: true, faults: 2, failPct: 40},
+		propFailoverSched(c, scenOpts{maxKeys: 3, minGets: 2, maxGets: 6, skipRead: true, clock: 3, external: 2, prefail: true, postActions: true, faults: 2, failPct: 40, errKinds: true},
 			func(w *world, sc *scenario, complete bool) {
 				w.checkProvenance()
 
@@ -102,7 +102,7 @@ const c02bRule = "single-fault enumeration: a fault-free base case (scenario + s
 // TestC02FaultEnum enumerates every backend call of sampled schedules as the single fault position.
 func TestC02FaultEnum(t *testing.T) {
 	runCheck(t, "C02", "C02FaultEnum", c02bRule, func(c *Case) {
-		o := scenOpts{maxKeys: 2, minGets: 1, maxGets: 4, skipRead: true, clock: 2, external: 1, prefail: true, postActions: true, failPct: 35}
+		o := scenOpts{maxKeys: 2, minGets: 1, maxGets: 4, skipRead: true, clock: 2, external: 1, prefail: true, postActions: true, failPct: 35, errKinds: true}
 		sc := drawScenario(c, o)
 		sc.describe(c)
 		mark := len(c.Choices)
